@@ -7,7 +7,7 @@ MISS=0
 for id in $IDS; do
   d=seeded/$id; P=$(echo $id | cut -c1-3)
   git -C /repo diff --quiet || { echo "repo dirty"; exit 2; }
-  if ! git -C /repo apply $d/patch.diff 2>/dev/null; then echo "$id: PATCH DOES NOT APPLY"; MISS=1; continue; fi
+  if ! git -C /repo apply "$PWD/$d/patch.diff" 2>/dev/null; then echo "$id: PATCH DOES NOT APPLY"; MISS=1; continue; fi
   S=$(date +%s)
   OUT=$(timeout 1500 bin/check $P --tier quick 2>&1); RC=$?
   E=$(date +%s)
